@@ -200,3 +200,46 @@ def coeff_value(rng):
     if k < 8:
         return rng.below(1000)
     return rng.fe()
+
+
+def logic_alt_roots(aq, bq, is_xor):
+    """values w != aq*bq of the logic product wire for which the per-quad identity delta_xor_and(aq, bq, w, op(aq,bq))
+    still vanishes (other roots of its cubic in w): the assignments that only the `w = a*b` component of the logic
+    widget rejects"""
+    qc = R - 1 if is_xor else 1
+    c = (aq ^ bq) if is_xor else (aq & bq)
+    s_, q_ = (aq + bq) % R, (aq * aq + bq * bq) % R
+    c2, c1 = (81 - 18 * s_) % R, (18 * q_ - 81 * s_ + 83) % R
+    w0 = aq * bq % R
+    A, Bq = 4, (c2 + 4 * w0) % R
+    C = (c1 + w0 * Bq) % R
+    sq = sqrt_fr((Bq * Bq - 4 * A * C) % R)
+    if sq is None:
+        return []
+    return [w for w in (((-Bq + sq) * inv(2 * A)) % R, ((-Bq - sq) * inv(2 * A)) % R) if w != w0]
+
+
+def delta(x):
+    return x * (x - 1) * (x - 2) * (x - 3) % R
+
+
+def delta_inv(t):
+    """some y with delta(y) = t, or None (u = y^2 - 3y solves u(u+2) = t)"""
+    s1 = sqrt_fr((1 + t) % R)
+    if s1 is None:
+        return None
+    for u in ((-1 + s1) % R, (-1 - s1) % R):
+        s2 = sqrt_fr((9 + 4 * u) % R)
+        if s2 is not None:
+            y = (3 + s2) * inv(2) % R
+            assert delta(y) == t % R
+            return y
+    return None
+
+
+def delta_xor_and(a, b, w, c, qc):
+    ab = (a + b) % R
+    f = w * (w * (4 * w - 18 * ab + 81) + 18 * (a * a + b * b) - 81 * ab + 83) % R
+    e = (3 * (ab + c) - 2 * f) % R
+    bb = qc * (9 * c - 3 * ab) % R
+    return (bb + e) % R
